@@ -23,6 +23,18 @@ FP64_M = 52
 FP64_EONES = 0x7ff
 
 
+PYHASH = z3.Function('pyhash', z3.RealSort(), z3.IntSort())
+PYHASH_INF = 314159      # sys.hash_info.inf (CPython: _PyHASH_INF)
+
+
+class PackedDouble:
+    """the bytes object struct.pack('d', x) of a float with (possibly symbolic) bit pattern `bits`"""
+    __slots__ = ('bits',)
+
+    def __init__(self, bits):
+        self.bits = bits
+
+
 class Intrinsics:
     def __init__(self, ex):
         self.ex = ex
@@ -108,7 +120,7 @@ class Intrinsics:
     def call(self, P, name: str, args, kwargs):
         short = name.split('.', 1)[1] if name.startswith('builtins.') else None
         if short is not None:
-            m = getattr(self, 'b_' + short, None)
+            m = getattr(self, 'b_' + short.replace('.', '_'), None)
             if m is not None:
                 return m(P, *args, **kwargs)
             from .interp import BUILTIN_EXC_BASES, mk_exc
@@ -482,7 +494,110 @@ class Intrinsics:
     def x_math_copysign(self, P, a, b):
         if isinstance(a, (float, int)) and isinstance(b, (float, int)) and not is_z3(a) and not is_z3(b):
             return math.copysign(a, b)
+        if isinstance(b, SymFloat) and isinstance(a, (float, int)) and not is_z3(a) and not math.isnan(a):
+            # copysign(a, b): magnitude of the concrete a, sign bit of b (also for NaN / zero b)
+            import struct as _st
+            mag = int.from_bytes(_st.pack('<d', abs(float(a))), 'little')
+            return SymFloat(simp(mag + (b.bits / (1 << 63)) * (1 << 63)))
         raise Unsupported('math.copysign symbolic')
+
+    # struct.pack('@d' | '<d' | 'd' | '=d', x): the 8 bytes of the binary64 pattern (little-endian host assumed)
+    def x_struct_pack(self, P, fmt, *vals):
+        if fmt in ('@d', '<d', 'd', '=d') and len(vals) == 1:
+            v = vals[0]
+            if isinstance(v, SymFloat):
+                return PackedDouble(v.bits)
+            if isinstance(v, float):
+                import struct as _st
+                return PackedDouble(int.from_bytes(_st.pack('<d', v), 'little'))
+        raise Unsupported(f'struct.pack({fmt!r}, ...)')
+
+    def b_int_from_bytes(self, P, data, byteorder='big', signed=False):
+        if isinstance(data, PackedDouble) and byteorder == 'little' and signed is False:
+            return data.bits
+        if isinstance(data, bytes) and isinstance(byteorder, str):
+            return int.from_bytes(data, byteorder, signed=signed)
+        raise Unsupported('int.from_bytes')
+
+    # ---- symbolic binary64 helpers (exact IEEE 754 semantics on the bit pattern)
+    @staticmethod
+    def f_parts(v):
+        """(sign, ebits, mbits) of a SymFloat / concrete float as z3 / python ints"""
+        if isinstance(v, SymFloat):
+            b = v.bits
+        else:
+            import struct as _st
+            b = int.from_bytes(_st.pack('<d', float(v)), 'little')
+        if isinstance(b, int):
+            return (b >> 63, (b >> 52) & 2047, b & ((1 << 52) - 1))
+        return (b / (1 << 63), (b / (1 << 52)) % 2048, b % (1 << 52))
+
+    def float_compare_zero(self, P, opname, v):
+        """v <op> 0 for a symbolic float v (IEEE: NaN compares false, -0.0 == 0)"""
+        s_, e_, m_ = self.f_parts(v)
+        nan = z3.And(e_ == 2047, m_ != 0)
+        zero = z3.And(e_ == 0, m_ == 0)
+        neg = s_ == 1
+        if opname == 'Lt':
+            r = z3.And(z3.Not(nan), z3.Not(zero), neg)
+        elif opname == 'Gt':
+            r = z3.And(z3.Not(nan), z3.Not(zero), z3.Not(neg))
+        elif opname == 'LtE':
+            r = z3.And(z3.Not(nan), z3.Or(zero, neg))
+        elif opname == 'GtE':
+            r = z3.And(z3.Not(nan), z3.Or(zero, z3.Not(neg)))
+        elif opname == 'Eq':
+            r = zero
+        else:
+            raise Unsupported(f'symbolic float comparison {opname}')
+        return simp(r)
+
+    _NEG_CHECKED = []
+
+    @staticmethod
+    def _neg_facts(b, nb):
+        # consequences of nb == b with bit 63 flipped (proved once by _check_neg_facts)
+        return [nb >= 0, nb < (1 << 64), nb / (1 << 63) == 1 - b / (1 << 63),
+                (nb / (1 << 52)) % 2048 == (b / (1 << 52)) % 2048, nb % (1 << 52) == b % (1 << 52)]
+
+    def _check_neg_facts(self):
+        if self._NEG_CHECKED:
+            return
+        b, nb = z3.Int('b'), z3.Int('nb')
+        s = z3.Solver()
+        s.set('timeout', 60000)
+        s.add(b >= 0, b < (1 << 64), nb == b + (1 - 2 * (b / (1 << 63))) * (1 << 63))
+        s.add(z3.Not(z3.And(self._neg_facts(b, nb))))
+        if s.check() != z3.unsat:
+            raise InterpError('float negation lemma not proved')
+        self._NEG_CHECKED.append(True)
+
+    def float_neg(self, P, v):
+        """-v for a symbolic float: the sign bit flips (also for NaN and zero); a fresh pattern with its defining facts"""
+        self._check_neg_facts()
+        b = v.bits
+        cache = P.__dict__.setdefault('_float_negs', {})
+        key = b.get_id() if is_z3(b) else b
+        if key in cache:
+            return cache[key][0]
+        nb = z3.Int(P.fresh_name('negbits'))
+        cache[key] = (SymFloat(nb), b)
+        P.assume(z3.And([nb == b + (1 - 2 * (b / (1 << 63))) * (1 << 63)] + self._neg_facts(b, nb)), fact=True)
+        return cache[key][0]
+
+    def float_mul_unit(self, P, v, unit):
+        """v * (+1.0 | -1.0) for a symbolic float v: exact; a NaN operand gives a NaN with unspecified sign/payload"""
+        if unit not in (1.0, -1.0):
+            raise Unsupported('symbolic float arithmetic')
+        s_, e_, m_ = self.f_parts(v)
+        nan = z3.And(e_ == 2047, m_ != 0)
+        if P.branch(simp(nan), 'float*unit: nan'):
+            b = z3.Int(P.fresh_name('nanbits'))
+            P.assume(z3.And(b >= 0, b < (1 << 64), (b / (1 << 52)) % 2048 == 2047, b % (1 << 52) != 0), fact=True)
+            return SymFloat(b)
+        if unit == 1.0:
+            return v
+        return self.float_neg(P, v)
 
     def x_math_ldexp(self, P, a, b):
         if not is_z3(a) and not is_z3(b):
@@ -902,6 +1017,12 @@ class Intrinsics:
         if isinstance(a, int) and isinstance(b, int):
             return a % b
         return simp(as_z3int(a) % as_z3int(b))
+
+    def s_hashq(self, P, q):
+        """assumed stdlib model (DESIGN H3): one uninterpreted H: Q -> Z gives the hash of int, Fraction (and float) values"""
+        if isinstance(q, SymFloat) or isinstance(q, float):
+            raise Unsupported('hashq of a float')
+        return PYHASH(as_z3real(q))
 
     def s_to_real(self, P, a):
         if isinstance(a, bool):
